@@ -31,6 +31,43 @@ ONCE_CRASHING = [
 ]
 
 
+def reference_matrix():
+    """every consumer of a type reference x every kind of type it may lead to (directly and through an
+    alias): most combinations are faulty documents - each must end with a catalog or a located error"""
+    J = "JSIGHT 0.3\n"
+    kinds = {
+        "obj": 'TYPE @k\n  {"a": 1}\n', "scalar": 'TYPE @k\n  "ab" // {regex: "ab+"}\n', "arr": "TYPE @k\n  [1, 2]\n",
+        "int": "TYPE @k\n  12\n", "null": "TYPE @k\n  null\n", "rx": "TYPE @k regex\n  /ab+/\n", "any": "TYPE @k any\n", "empty": "TYPE @k empty\n",
+        "or": 'TYPE @k\n  1 // {or: [{type: "integer"}, {type: "string"}]}\n', "self": 'TYPE @k\n  {"me": @k} // {optional: true}\n',
+        "enumrule": 'ENUM @en\n  [1, 2]\nTYPE @k\n  1 // {enum: @en}\n', "undefined": "",
+    }
+    consumers = {
+        "reqheaders": "POST /c\n  Request\n    Headers\n      %s\n    Body any\n  200 any\n",
+        "respheaders": "GET /c\n  200\n    Headers\n      %s\n    Body any\n",
+        "query": 'GET /c\n  Query "a=1"\n    %s\n  200 any\n',
+        "path": "GET /c/{id}\n  Path\n    %s\n  200 any\n",
+        "pathprop": 'GET /c/{id}\n  Path\n    {"id": %s}\n  200 any\n',
+        "params": "URL /r\n  Protocol json-rpc-2.0\n  Method m\n    Params\n      %s\n",
+        "result": "URL /r\n  Protocol json-rpc-2.0\n  Method m\n    Result\n      %s\n",
+        "reqbody": "POST /c\n  Request %s\n  200 any\n",
+        "respbody": "GET /c\n  200 %s\n",
+        "allof": 'GET /c\n  200\n    { // {allOf: "%s"}\n      "own": 1\n    }\n',
+        "arrayof": "GET /c\n  200 [%s]\n",
+        "headerprop": 'GET /c\n  200\n    Headers\n      {"h": %s}\n    Body any\n',
+    }
+    out = []
+    for kn, decl in kinds.items():
+        for cn, tmpl in consumers.items():
+            for via_alias in (False, True):
+                ref = "@al" if via_alias else "@k"
+                types = decl + ("TYPE @al\n  @k\n" if via_alias else "")
+                for types_first in (True, False):
+                    body = tmpl % ref
+                    doc = J + (types + body if types_first else body + types)
+                    out.append(("%s-%s-%d%d" % (kn, cn, via_alias, types_first), doc.encode()))
+    return out
+
+
 def matches_finding(v, f):
     return v.get("class") == f.get("class") or v.get("class") in f.get("classes", [])
 
@@ -110,6 +147,8 @@ def run(tier, out, model_ok, proof):
         if i % 7 == 0:
             c = treecorr.project_case("lli%d" % i, {"root.jst": head + b"INCLUDE inc.jst\n", "inc.jst": pad + faulty + [b"", b"\n", b"\n# x\n"][pos]})
             cases.append(c)
+    for name, doc in reference_matrix():
+        cases.append(treecorr.single_file_case("rm_" + name, doc))
     # big inputs: time must stay proportional
     big_doc = b"JSIGHT 0.3\n" + b"".join(b"GET /p%d\n  200 any\n" % i for i in range(3000 if big else 800))
     cases.append(treecorr.single_file_case("big1", big_doc))
@@ -179,7 +218,7 @@ def run(tier, out, model_ok, proof):
     out.coverage.update({
         "evaluations": len(cases),
         "distinct_nontrivial": len(set(json.dumps(c["files"], sort_keys=True) for c in cases)),
-        "rule": "every formerly crashing input, a missing and an empty root file through kit.NewJapi, random bytes, directive-like documents, mutated corpus files, random directive sequences, arbitrary MACRO/PASTE graphs (chains into cycles, any declaration order), perturbed structured documents as files and include trees, include graphs with cycles/missing files/directories, rejected documents whose faulty line has every shape of indentation and length around the 200-byte cut of the error quote (end of file / middle / included file; scanner, directive-layer and builder errors), every path of up to three segments over {'', '.', '..', 'a', '{id}', '{}', ...} as method path / URL path / JSON-RPC URL, three large inputs, and dependency-shaped projects (chains of 10..40 user types in both orders, allOf/array/macro/include chains, rings, fan-outs, deep JSON; Fibonacci, or- and dense DAGs of types) each in a worker of its own with a 40 s limit; each is built by kit.NewJApiFromFile in a worker whose death is attributed to the case; outcome must be catalog or error; wall time per case is recorded",
+        "rule": "every formerly crashing input, a missing and an empty root file through kit.NewJapi, random bytes, directive-like documents, mutated corpus files, random directive sequences, arbitrary MACRO/PASTE graphs (chains into cycles, any declaration order), perturbed structured documents as files and include trees, include graphs with cycles/missing files/directories, rejected documents whose faulty line has every shape of indentation and length around the 200-byte cut of the error quote (end of file / middle / included file; scanner, directive-layer and builder errors), every consumer of a type reference (request/response Headers, Query, Path, Params, Result, bodies, allOf, array items, header and path properties) x every kind of type it may lead to (object, scalar, array, null, regex / any / empty notation, or-type, self-reference, enum rule, undefined; directly and through an alias; declared before or after), every path of up to three segments over {'', '.', '..', 'a', '{id}', '{}', ...} as method path / URL path / JSON-RPC URL, three large inputs, and dependency-shaped projects (chains of 10..40 user types in both orders, allOf/array/macro/include chains, rings, fan-outs, deep JSON; Fibonacci, or- and dense DAGs of types) each in a worker of its own with a 40 s limit; each is built by kit.NewJApiFromFile in a worker whose death is attributed to the case; outcome must be catalog or error; wall time per case is recorded",
         "samples": [{n: bytes.fromhex(h).decode("latin1")[:100] for n, h in c["files"].items()} for c in cases[14:17]],
         "outcomes": kinds,
         "dependency_shaped_projects": stress_rows,
